@@ -187,16 +187,19 @@ static rc::Gen<std::string> name_gen() {
       }
     }
     if (*vf::range<int>(0, 19) == 0) n = *rc::gen::container<std::string>(rc::gen::arbitrary<char>());
+    // prefixes that belong to other kinds of names (data-source selectors, a leading ':'): never part of a fixed-offset name
+    if (*vf::range<int>(0, 11) == 0) n = *rc::gen::element<std::string>("file:", "libc:", ":", "/", "./", "posix/", "file:/") + n;
     return n;
   });
 }
 
 static void run(const vf::Args& a, vf::Evidence& ev, vf::Reporter& rep) {
+  vf::History::enabled() = true;  // failing cases carry the cases that ran just before them (state between calls)
   ev.rule = "(1) exhaustive: every integer offset in [-90000, 90000] s (quick: every 7th offset plus all offsets within "
             "61 s of a whole hour and the +-24h neighbourhood), each x instants {int64 min/max, 0, +-2^31, +-2^59, "
             "generated}: name, abbreviation, lookup both ways, load by name, no data-source access, name->offset. "
             "(2) rapidcheck: names built from possibly out-of-range fields with 0-3 edits (replace/insert/delete/case, "
-            "NUL and 8-bit bytes) and random strings, against the documented acceptance rule. (3) rapidcheck: int64 offsets far beyond 24 h (+-2^k, multiples of 2^32 +- in-range values, uniform): must be UTC. (4) rapidcheck: sequences of 2-6 related offsets on one thread (equal modulo 2^32 / 2^16 / 2^31, "
+            "NUL and 8-bit bytes, prefixes of other name kinds such as 'file:') and random strings, against the documented acceptance rule. (3) rapidcheck: int64 offsets far beyond 24 h (+-2^k, multiples of 2^32 +- in-range values, uniform): must be UTC. (4) rapidcheck: sequences of 2-6 related offsets on one thread (equal modulo 2^32 / 2^16 / 2^31 seconds, minutes or hours, "
             "negated, neighbours, repeated, one high bit flipped): each call answers as it does alone. Non-trivial: every "
             "non-zero offset (distinct by value); names within the mutation family (distinct by content).";
   // generated instants (shared by all offsets of this shard), drawn once from rapidcheck
@@ -262,8 +265,8 @@ static void run(const vf::Args& a, vf::Evidence& ev, vf::Reporter& rep) {
       const int64_t prev = offs[*vf::index(offs.size())];
       int64_t o = prev;
       switch (*vf::range<int>(0, 7)) {
-        case 0: o = (int64_t)((uint64_t)prev + (uint64_t)(*vf::range<int64_t>(-3, 3)) * 4294967296ULL); break;   // same low 32 bits
-        case 1: o = (int64_t)((uint64_t)prev + (uint64_t)(*vf::range<int64_t>(-3, 3)) * 65536ULL); break;        // same low 16 bits
+        case 0: o = (int64_t)((uint64_t)prev + (uint64_t)(*vf::range<int64_t>(-3, 3)) * 4294967296ULL * (uint64_t)*rc::gen::element<int64_t>(1, 1, 60, 3600)); break;   // same low 32 bits, in seconds / minutes / hours
+        case 1: o = (int64_t)((uint64_t)prev + (uint64_t)(*vf::range<int64_t>(-3, 3)) * 65536ULL * (uint64_t)*rc::gen::element<int64_t>(1, 1, 60, 3600)); break;        // same low 16 bits
         case 2: o = prev == INT64_MIN ? prev : -prev; break;
         case 3: o = (int64_t)((uint64_t)prev + (uint64_t)*vf::range<int64_t>(-2, 2)); break;
         case 4: o = prev; break;
